@@ -396,3 +396,71 @@ def only_via(body, target_bb, pred, val, from_bb=0, within=None):
             tg = [y for v, y in t["targets"] if v == val]
             cut.append((sw, tg[0] if tg else t["otherwise"]))
     return bool(cut) and target_bb not in body.reachable_from(from_bb, cut_edges=cut)
+
+
+def swapped_args(prog, body, bb, t):
+    """generic argument-wiring lint for one call: arguments that are reads of fields / named locals whose name equals
+    the name of ANOTHER parameter of the callee while their own position's parameter name is also among the argument
+    names (two same-typed arguments crossed). Returns list of (position, argument name, parameter name)."""
+    if "callee" not in t:
+        return []
+    tb = prog.bodies.get(callee(t))
+    if tb is None:
+        return []
+    pn = {}
+    for i in range(1, tb.argc + 1):
+        ns = tb.local_names().get(i, [])
+        if ns:
+            pn[i] = ns[0]
+    names = {}
+    for i, a in enumerate(t["args"], 1):
+        e = flow.expr_of(body, a, bb)
+        nm, neg = cond_name(body, e)
+        if nm and not neg:
+            names[i] = nm
+    out = []
+    for i, an in names.items():
+        if i in pn and pn[i] != an and an in pn.values():
+            j = [k for k, v in pn.items() if v == an][0]
+            if names.get(j) == pn[i] and tb.locals[i] == tb.locals[j]:
+                out.append((i, an, pn[i]))
+    return out
+
+
+WIRING_MODULES = {
+    "C01": r"::backend::(ignore|node|local_destination|stdin|childstdout)|::vfs",
+    "C02": r"::commands::(prune|forget)::",
+    "C04": r"::crypto::|::backend::decrypt::|::repofile::keyfile::|::commands::key::",
+    "C05": r"::commands::check::",
+    "C06": r"::chunker::",
+    "C08": r"::blob::packer::|::repofile::packfile::|::index::indexer::",
+    "C09": r"::commands::forget::|::repofile::snapshotfile::",
+    "C11": r"::archiver::|::commands::backup::",
+    "C12": r"::commands::(copy|merge|rewrite|repair)|::blob::tree::(modify|rewrite)|::blob::tree::merge",
+    "C14": r"::commands::restore::|::backend::local_destination::",
+    "C16": r"::backend::hotcold::|::commands::repair::hotcold::|::backend::warm_up::",
+    "C17": r"::index::",
+    "C18": r"::commands::(config|init)::|::repofile::configfile::",
+    "C19": r"::backend::cache::",
+    "C20": r"^rustic_backend::",
+}
+
+
+def wiring_rule(ctx, rep, prop):
+    """R-WIRING: no call INTO the modules behind this property passes two same-typed arguments crossed (a field or
+    variable named like parameter j in position i and vice versa) - e.g. (ignore_inode, ignore_ctime) swapped."""
+    prog = ctx.prog
+    rx = re.compile(WIRING_MODULES[prop])
+    rule = f"{prop}.w"
+    rep.rule(rule, "arguments are passed to the parameters of the same name (no crossed same-typed arguments)")
+    n = 0
+    for b in prog.by_crate["rustic_core"] + prog.by_crate.get("rustic_backend", []):
+        for bb, t in b.calls():
+            if "callee" not in t or callee(t) not in prog.bodies or not rx.search(callee(t)):
+                continue
+            n += 1
+            sw = swapped_args(prog, b, bb, t)
+            if sw:
+                rep.check(rule, f"{fn_key(b)}/{strip_crate(callee(t))}", False, where=where(b, bb),
+                          what=f"{fn_key(b)}: arguments crossed in the call of {strip_crate(callee(t))}: " + "; ".join(f"`{a}` is passed for parameter `{p_}`" for i, a, p_ in sw))
+    rep.check(rule, "call-sites-examined", n > 0, where="", what=f"{n} call sites into the property's modules examined for crossed arguments", nontrivial=False)
